@@ -239,6 +239,17 @@ func runSend(r *h.Run, idx int, sc sendCase) {
 		r.Violation(sc.Kind+"/"+key, fmt.Sprintf("%v: %s", sc, msg), w)
 	}
 	p.a.SetMaxWriteDelay(sc.Delay)
+	if idx%2 == 1 {
+		// a read limit just above the largest packet: it applies per packet, so
+		// it changes nothing however the packets are coalesced on the wire
+		limit := 0
+		for _, sz := range sc.Sizes {
+			if b, err := ref.Encode(mkPacket(15, 1, sz)); err == nil && len(b) > limit {
+				limit = len(b)
+			}
+		}
+		p.b.SetReadLimit(int64(limit + 16))
+	}
 	// receiver at the peer: drains until EOF
 	type got struct{ sender, seq int }
 	var recvd []got
@@ -686,7 +697,7 @@ func runStuckSend(r *h.Run, trigger string, nsend int, delay time.Duration) {
 
 func TestCheck(t *testing.T) {
 	r := h.New("C19", "fault_enumeration")
-	r.Rule("A/B: 1-16 goroutines send numbered, checksummed packets (sizes around 4096) on one connection with PRNG async/sync patterns and flush delays 0-50 ms while a third goroutine calls Close after a PRNG-chosen number of sends returned (or after all); the peer drains until EOF; oracles: every packet intact, per-sender order, no duplicates, every Send that returned nil before Close was called arrived, wire bytes parse into whole sent packets, a pending Receive is unblocked, then flushed sends fail at once, buffered sends fail once the flush delay elapsed, Receive fails, a second Close returns — on the in-memory wire and again on TCP and WebSocket loopback pairs. D: an instrumented carrier fails at every k-th Read / Write / Close / SetReadDeadline call of a scripted send/receive sequence, for flush delays 0 and 5 ms. E: read timeouts 10-30 ms with a silent peer on wire, TCP and WebSocket. F: 1-3 senders blocked in the carrier's Write on a non-reading peer (bounded wire), then a read timeout / garbage / an oversized packet fails the Receive: the blocked Sends must fail, later calls fail at once, Close returns. Everything runs under the race detector. Non-trivial = runs with >= 2 concurrent senders or a close/fault while sends are in progress; distinct by case; distinct arrival interleavings are counted separately")
+	r.Rule("A/B: 1-16 goroutines send numbered, checksummed packets (sizes around 4096) on one connection with PRNG async/sync patterns and flush delays 0-50 ms while a third goroutine calls Close after a PRNG-chosen number of sends returned (or after all); the peer drains until EOF; oracles: every packet intact, per-sender order, no duplicates, every Send that returned nil before Close was called arrived, wire bytes parse into whole sent packets, a pending Receive is unblocked, then flushed sends fail at once, buffered sends fail once the flush delay elapsed, Receive fails, a second Close returns — on the in-memory wire and again on TCP and WebSocket loopback pairs, half of the cases with a receiver read limit just above the largest packet. D: an instrumented carrier fails at every k-th Read / Write / Close / SetReadDeadline call of a scripted send/receive sequence, for flush delays 0 and 5 ms. E: read timeouts 10-30 ms with a silent peer on wire, TCP and WebSocket. F: 1-3 senders blocked in the carrier's Write on a non-reading peer (bounded wire), then a read timeout / garbage / an oversized packet fails the Receive: the blocked Sends must fail, later calls fail at once, Close returns. Everything runs under the race detector. Non-trivial = runs with >= 2 concurrent senders or a close/fault while sends are in progress; distinct by case; distinct arrival interleavings are counted separately")
 	r.Assume("in parts A-E peers always drain; part F blocks a Send on a non-reading peer and then makes the receive side fail (a Close called first would wait behind the blocked Send - that is the recorded C13 mechanism and is not exercised here)")
 	rng := r.Rand("c19")
 	mk := func(kind string, i int) sendCase {
